@@ -158,6 +158,7 @@ prop('C05', [
     optab.r_vocab,
     handles.r_parser,
     models.r_to_expr,
+    models.r_operator_str,
 ],
     'the lexer is reconstructed from the source (regex docstrings, PLY '
     'ordering rule) and every spelling of every operator rule and every '
